@@ -1,4 +1,5 @@
 """C18 - the dynamic array behaves like a growing list of rows (H-API on the shape-level numpy shim)."""
+import os
 import random
 
 import numpy as np
@@ -323,7 +324,7 @@ def shim_validation(seed, n=300):
     import importlib
     import sys
     rnd = random.Random(seed)
-    src = open('/repo/jesse/libs/dynamic_numpy_array/__init__.py').read()
+    src = open(os.environ.get('VF_REPO', '/repo') + '/jesse/libs/dynamic_numpy_array/__init__.py').read()
     ns = {'__name__': 'real_dna'}
     exec(compile(src, 'real_dna', 'exec'), ns)
     Real = ns['DynamicNumpyArray']
